@@ -1163,6 +1163,74 @@ func (d *Driver) FamExtVal(nrand int, prop string) {
 			})
 			d.emitD(e)
 		}
+		if prop == "C08" {
+			// mutated encodings of messages with one extension set: the wire-type bits of every key flipped, truncations, an inflated
+			// length - the generated extension decoder must not panic and, whenever the owning runtime accepts the bytes too, must
+			// produce an equal message (a field of an unexpected wire type is an unknown field for the reference)
+			for _, k := range kinds {
+				for id := 1; id <= 2; id++ {
+					m := ti.New()
+					if err := csproto.SetExtension(m, ti.Exts[k], d.extGoValue(ti, ti.Exts[k], k, id)); err != nil {
+						continue
+					}
+					var rb []byte
+					var rerr error
+					func() {
+						defer func() {
+							if recover() != nil {
+								rerr = fmt.Errorf("the runtime's Marshal panicked (v1-API scalar extension: recorded finding)")
+							}
+						}()
+						rb, rerr = rt.marshal(m)
+					}()
+					if rerr != nil || len(rb) == 0 {
+						continue
+					}
+					var muts [][]byte
+					for _, pos := range keyOffsets(rb, 0, 0) {
+						for wt := byte(0); wt < 8; wt++ {
+							if wt != rb[pos]&7 {
+								mb := append([]byte{}, rb...)
+								mb[pos] = mb[pos]&^7 | wt
+								muts = append(muts, mb)
+							}
+						}
+					}
+					// two-byte keys (extension numbers >= 16): flip the wire type in the first key byte
+					if len(rb) > 1 && rb[0] >= 0x80 {
+						for wt := byte(0); wt < 8; wt++ {
+							if wt != rb[0]&7 {
+								mb := append([]byte{}, rb...)
+								mb[0] = mb[0]&^7 | wt
+								muts = append(muts, mb)
+							}
+						}
+					}
+					for cut := 1; cut < len(rb); cut++ {
+						muts = append(muts, rb[:cut])
+					}
+					for mi, mb := range muts {
+						e := &DEv{C: "extrt", Op: prop, Fl: specFlavour(ti.Flavour), Key: ti.Key, Mapping: fmt.Sprintf("%s=%d", k, id), Raw: fmt.Sprintf("mutant-%d %x", mi, mb)}
+						guard(&e.St, &e.Note, func() {
+							f1, f2 := ti.New(), ti.New()
+							err1 := csproto.Unmarshal(append([]byte{}, mb...), f1)
+							err2 := rt.unmarshal(append([]byte{}, mb...), f2)
+							e.X2 = 1
+							if err1 == nil && err2 == nil && !rt.equal(f1, f2) {
+								e.X2 = 0
+							}
+							if err1 != nil {
+								e.St = "err"
+							} else {
+								e.St = "ok"
+							}
+						})
+						d.emitD(e)
+					}
+				}
+			}
+			continue
+		}
 		for _, k := range kinds {
 			for id := 1; id <= 4; id++ {
 				one(map[string]int{k: id}, id%2 == 0, "single")
